@@ -421,6 +421,19 @@ def single_def_expr(res: FuncResult, name_node: ast.Name) -> Optional[ast.expr]:
     return None
 
 
+def source_order(root: ast.AST) -> Dict[int, int]:
+    """id(node) -> position in a depth-first, left-to-right walk: the order in which the statements stand in the (possibly inlined)
+    function.  Line numbers do not give that order: statements expanded by the inlining pre-pass share the line of their call."""
+    out: Dict[int, int] = {}
+
+    def go(n):
+        out[id(n)] = len(out)
+        for ch in ast.iter_child_nodes(n):
+            go(ch)
+    go(root)
+    return out
+
+
 def expr_sources(res: FuncResult, e: ast.expr) -> Tok:
     """sources of an expression = union of the recorded sources of the names it reads and calls it makes"""
     out = set()
